@@ -605,6 +605,11 @@ fn check_case_inner(d: &Desc, idx: usize, dir: &Path, out: &mut Partial) {
     let mut fails = vec![];
     stage("accounting");
     fails.extend(check_accounting(want, &mem, &bytes, &info));
+    if !want.is_empty() && want.files.len() + want.xorbs.len() <= 12 {
+        stage("records-added-twice");
+        fails.extend(check_readded(want, &bytes));
+        out.count("vac:shards_rebuilt_with_records_added_twice", 1);
+    }
     stage("seekable-reader");
     fails.extend(check_seekable(want, &bytes, &case.qf, &case.qx, &mut st, !light || case.full));
     if !light || case.full {
